@@ -107,6 +107,32 @@ Theorem solver_ignores_zero_rows :
   length x = q /\ forall x', sol_nz Sy sxor s0 p q y x' -> forall j, j < q -> nth j x s0 = nth j x' s0.
 Proof. exact solve_sound_nz. Qed.
 
+(* of_hweight_array: the ones of the WHOLE 32-bit words that cover the first `size` bits (two words at a time through the 64-bit
+   popcount, one table-driven popcount for an odd word out), reading exactly those words *)
+From OFV Require Import HweightArray HweightArrayProofs.
+Theorem popcount_array_correct : forall ws size, Forall (fun w => (0 <= w < 2 ^ 32)%Z) ws -> (0 <= size < 2 ^ 31)%Z ->
+  (hw_words size <= Z.of_nat (length ws))%Z ->
+  hweight_array ws size = Some (sum_popc (firstn (Z.to_nat (hw_words size)) ws)).
+Proof. exact hweight_array_correct. Qed.
+
+Theorem popcount_array_reads_only_its_words : forall ws ws' size, (0 <= size)%Z ->
+  firstn (Z.to_nat (hw_words size)) ws = firstn (Z.to_nat (hw_words size)) ws' -> hweight_array ws size = hweight_array ws' size.
+Proof. exact hweight_array_reads_only_its_words. Qed.
+
+(* of_mod2dense_row_weight_ignore_first: the weight of the row from the word boundary at or below nb_ignore on - the bits
+   nb_ignore mod 32 of the first counted word ARE counted (ignore_first_counts_ignored_bits in HweightArrayProofs.v is the witness);
+   with nb_ignore = 0 it is the row weight of the bit-matrix model *)
+Theorem dense_row_weight_ignore_first : forall m i nb, WFd m -> words32 m -> padzero m -> i < dr m -> 32 * (nb / 32) <= dc m ->
+  (Z.of_nat (dc m) < 2 ^ 31)%Z ->
+  d_row_weight_ignore_first m i nb = Some (Z.of_nat (length (filter (fun j => d_get m i j) (seq (32 * (nb / 32)) (dc m - 32 * (nb / 32)))))).
+Proof. exact row_weight_ignore_first_correct. Qed.
+
+Theorem dense_row_weight_ignore_nothing : forall m i, WFd m -> words32 m -> padzero m -> i < dr m -> (Z.of_nat (dc m) < 2 ^ 31)%Z ->
+  d_row_weight_ignore_first m i 0 = Some (Z.of_nat (d_row_weight m i)).
+Proof. exact row_weight_ignore_first_0. Qed.
+
+Print Assumptions popcount_array_correct.
+Print Assumptions dense_row_weight_ignore_first.
 Print Assumptions dense_get_after_set.
 Print Assumptions solver_ignores_zero_rows.
 Print Assumptions dense_get_after_copy.
